@@ -106,6 +106,7 @@ def check_C07(c):
 
 def check_C08(c):
     mc_inflate_core(c)
+    c.model_check("MC_InflateHelpers", "MC_InflateHelpers.cfg", workers=2)
     c.scenario("window")
     return c.finish("model_checking", RULE_DEC, TRUST)
 
